@@ -111,7 +111,7 @@ def split_piece_root(expand, e, depth=0):
             e = sym.norm(e[1])
         elif e[0] == "call" and e[1].endswith("Try::branch") and e[3]:
             e = sym.norm(e[3][0])
-        elif e[0] == "call" and e[1].split("::")[-1] in ("unwrap", "expect", "unwrap_unchecked") and e[3]:
+        elif e[0] == "call" and e[1].split("::")[-1] in ("unwrap", "expect", "unwrap_unchecked", "ok_or", "ok_or_else") and e[1].startswith("core::") and e[3]:
             e = sym.norm(e[3][0])
         elif e[0] == "var":
             e2 = sym.norm(expand(e))
@@ -120,6 +120,8 @@ def split_piece_root(expand, e, depth=0):
             e = e2
         else:
             break
+    if e[0] == "call" and e[1].split("::")[-1] in ("get", "get_mut", "strip_prefix", "strip_suffix") and e[1].startswith("core::slice::") and e[3]:
+        return sym.norm(e[3][0])          # `Y.get(range)?`, `Y.strip_prefix(p)?`: a sub-slice of Y
     if e[0] == "call" and e[1].split("::")[-1] in ("next", "next_back", "last", "nth") and e[3]:
         it = sym.norm(e[3][0])
         for _ in range(6):
